@@ -92,6 +92,19 @@ def _int_const(e: ast.AST) -> Optional[int]:
     return None
 
 
+_PURE_BUILTINS = {"isinstance", "issubclass", "len", "hasattr", "callable", "type", "str", "int", "bool", "repr", "set", "frozenset", "list", "dict", "tuple", "sorted", "min", "max", "any", "all", "cast", "id"}
+
+
+def _predicate_call(c: ast.Call) -> bool:
+    """a call that by its name only inspects its arguments (is_*/has_*/_is_*/_node_is_* predicates, builtin conversions)"""
+    f = c.func
+    nm = f.id if isinstance(f, ast.Name) else f.attr if isinstance(f, ast.Attribute) else ""
+    if isinstance(f, ast.Name) and nm in _PURE_BUILTINS:
+        return True
+    base = nm.lstrip("_")
+    return base.startswith(("is_", "has_", "node_is_")) or nm in ("startswith", "endswith", "is_file", "is_dir", "is_symlink", "exists", "keys", "values", "items", "get")
+
+
 def polarity(e: ast.AST) -> Tuple[ast.AST, bool]:
     """(positive atom, negated?) of an atomic condition.  `a not in b`, `a != b`, `a is not b`, `not a` are the
     negations of `a in b`, `a == b`, `a is b`, `a`; comparisons of len(x) with small integer constants are mapped to
@@ -441,6 +454,8 @@ class CFG:
                         for x in walk_local(r):
                             if isinstance(x, ast.Name) and isinstance(x.ctx, (ast.Store, ast.Del)):
                                 stored.add(x.id)
+                            elif isinstance(x, ast.Call) and _predicate_call(x):
+                                pass  # predicates / conversions do not change what conditions read
                             elif isinstance(x, (ast.Call, ast.Delete, ast.Await, ast.Yield, ast.YieldFrom)):
                                 eff = True
                             elif isinstance(x, (ast.Attribute, ast.Subscript)) and isinstance(x.ctx, (ast.Store, ast.Del)):
